@@ -2,7 +2,7 @@
    models). Statements closed by [exact] and their assumptions; examples showing the hypotheses are
    satisfiable; the refuted full statement next to its exact partial version. *)
 From Coq Require Import List Arith Bool Lia.
-Require Import XV.GenCont XV.ContVecDefs XV.ContVecModel XV.ContMapDefs XV.ContMapModel XV.ContStrDefs XV.ContStrModel XV.ContDeqDefs XV.ContDeqModel.
+Require Import XV.GenCont XV.ContVecDefs XV.ContVecModel XV.ContMapDefs XV.ContMapModel XV.ContStrDefs XV.ContStrModel XV.ContDeqDefs XV.ContDeqModel XV.ContListDefs XV.ContListModel.
 Import ListNotations.
 
 (* ---- XalanVector ------------------------------------------------------------------------------ *)
@@ -215,3 +215,21 @@ Proof.
   vm_compute in H. discriminate H.
 Qed.
 Print Assumptions deque_swap_refuted.
+
+(* ---- XalanList -------------------------------------------------------------------------------- *)
+(* Node-sequence model (node recycling through the per-list free chain, splice moving nodes between
+   lists, swap exchanging head and chain; the prev/next pointer surgery itself is NOT modelled): for
+   every finite op sequence (push_back/front, pop_back/front, insert, erase, front, back, reverse
+   iteration, clear, swap, the three splice forms; two lists) return values, size and value sequence
+   equal the std::list specification — recycling never shows through. *)
+Theorem list_refines_list : forall ops, map strip_nodes (grun ginit ops) = llrun linit ops.
+Proof. intros. apply list_refines_list_lemma. unfold grel. simpl. auto. Qed.
+Print Assumptions list_refines_list.
+
+Example list_node_recycling :
+  grun ginit [LPushB 5; LPushB 6; LPushF 4; LErase 1; LPushB 7; LClear; LPushB 8]
+  = [Some (RNone, 1, [5], [0], 0); Some (RNone, 2, [5; 6], [0; 1], 0); Some (RNone, 3, [4; 5; 6], [2; 0; 1], 0);
+     Some (RNone, 2, [4; 6], [2; 1], 1); Some (RNone, 3, [4; 6; 7], [2; 1; 0], 0); Some (RNone, 0, [], [], 3);
+     Some (RNone, 1, [8], [0], 2)].
+Proof. vm_compute. reflexivity. Qed.
+Print Assumptions list_node_recycling.
